@@ -83,6 +83,21 @@ class Report:
         self.bad(rule, instance, where, why_bad, **detail)
         return False
 
+    def check_term(self, equal: bool, derived: Any, rule: str, instance: str, where: str, why_bad: str, why_ok: str = "", **detail: Any) -> bool:
+        """Verdict of comparing a derived term with a reference form: a mismatch of a term the analyser
+        modelled only opaquely (or not at all) is UNDECIDED, never a violation."""
+        from . import terms as T
+
+        if equal:
+            self.ok(rule, instance, where, why_ok, **detail)
+            return True
+        reason = T.contains_top(derived) or T.imprecise(derived)
+        if reason:
+            self.undecided(rule, instance, where, f"the analyser cannot decide this instance ({reason}); derived: {T.show(derived)[:200]}", **detail)
+            return False
+        self.bad(rule, instance, where, why_bad, **detail)
+        return False
+
     def sample(self, s: Any) -> None:
         if len(self.samples) < 12:
             self.samples.append(s)
